@@ -311,8 +311,8 @@ hwloc__type_match(const char *string,
       else
 	return s;
     }
-    if (*s != *t && *s != *t + 'A' - 'a') {
-      /* string is different */
+    if (*s != *t && !(*t >= 'a' && *t <= 'z' && *s == *t + 'A' - 'a')) {
+      /* string is different (or type ended, never look at what follows its ending \0) */
       if ((*s >= 'a' && *s <= 'z') || (*s >= 'A' && *s <= 'Z') || *s == '-')
 	/* valid character that doesn't match */
 	return NULL;
